@@ -94,7 +94,7 @@ class C10(CheckBase):
         else:
             cmd = [rng.choice(['extract-files', 'extract-unused']), 'out']
             globals_ = ['--drive', str(drv)]
-        fault = rng.weighted([(7, 'none'), (2, 'rchunk'), (4, 'trunc'), (4, 'flip'), (1, 'notgzip'), (1, 'rfail'),
+        fault = rng.weighted([(7, 'none'), (2, 'rchunk'), (4, 'trunc'), (4, 'flip'), (2, 'backref'), (1, 'notgzip'), (1, 'rfail'),
                               (1, 'tmp_createfail'), (3, 'tmp_wfail'), (1, 'tmp_rfail')]
                              + ([(2, 'enum_trunc'), (2, 'enum_flip')] if small else []))
         case = {'image': image, 'gz': self.gen_gz_params(rng), 'cmd': cmd, 'globals': globals_, 'fault': fault,
@@ -201,6 +201,16 @@ class C10(CheckBase):
                     out.sig(cont, extra[0][0], 'none+far-end', 'valid', r2.exit_class(), r2['log_hash'])
                     self.judge_same(out, c2, dict(c2), ref2, r2, 'C10.a', '%s compressed (%s), far-end command' % (plain, self.gzdesc(case)),
                                     {'container': cont, 'fault': fault, 'members': 'multi' if case['gz'].get('splits') else 'single'})
+            return out
+        if fault == 'backref':
+            # a second member whose matches reach back into the first member's data: every bit of framing is right,
+            # checksums included, and the stream is nevertheless not a gzip file
+            cut = max(1, min(len(X) - 1, (len(X) * case['frac']) // 1000)) if case['edge'] is None else max(1, min(len(X) - 1, 256 * (2 + case['bit'])))
+            D = gz.backref_pair(X, cut, level=case['gz'].get('level', 6) or 6)
+            if D is None:
+                out.skip('backref-stream-happens-to-be-valid')
+                return out
+            self.medium(ctx, out, case, dict(atom, abs=cut), ref, X, D, gzname, cont, 'backref', cut)
             return out
         if fault in ('trunc', 'flip', 'enum_trunc', 'enum_flip', 'notgzip'):
             if fault == 'notgzip':
